@@ -273,7 +273,30 @@ func (p c16) Run(w *mon.Worker, idx int) mon.Result {
 		}
 		res.Tags = append(res.Tags, "write_back")
 	}
-	cs := map[string]any{"doc": input.JSON(), "f": full}
+	if writeBack && strings.HasPrefix(full, ".x = ") && len(doc.A) >= 2 && r.IntN(2) == 0 {
+		// the source of the copy loses an element afterwards: the copy's nodes still sit where they sat
+		full = ".x = (.y | " + expr + ") | del(.y[" + fmt.Sprint(r.IntN(len(doc.A))) + "]) | .x"
+		res.Tags = append(res.Tags, "copy_then_delete_from_source")
+	} else if !writeBack && !pair && f.seq && expr == "." && r.IntN(2) == 0 {
+		// a value bound to a variable before an element is deleted from the document
+		input = ref.MapV(ref.KV{K: "y", V: doc}, ref.KV{K: "keep", V: ref.IntV(1)})
+		full = ".y as $v | del(.y[" + fmt.Sprint(r.IntN(len(doc.A))) + "]) | $v"
+		prefix = []any{"y"}
+		writeBack = true
+		res.Tags = append(res.Tags, "variable_then_delete")
+	}
+	inFmt := "yaml"
+	hasFloat := false
+	input.Walk(nil, func(_ []any, n *ref.V) {
+		if n.K == ref.Float {
+			hasFloat = true
+		}
+	})
+	if r.IntN(4) == 0 && !hasFloat { // (the two decoders keep different texts for floats: 0.0 / 0, which `length` can see)
+		inFmt = "json" // the JSON decoder builds the node tree on its own
+		res.Tags = append(res.Tags, "decoder:json")
+	}
+	cs := map[string]any{"doc": input.JSON(), "f": full, "input_format": inFmt}
 	res.Case = cs
 	res.Sig = fmt.Sprintf("%s|%v|%x", f.name, writeBack, doc.ShapeHash())
 	fail := func(fm string, a ...any) mon.Result {
@@ -282,7 +305,7 @@ func (p c16) Run(w *mon.Worker, idx int) mon.Result {
 		return res
 	}
 	q := func(suffix string) (*ref.V, error) {
-		v, _, err := evalDoc(full+" | "+suffix, input)
+		v, _, err := evalDocFmt(full+" | "+suffix, input, inFmt)
 		res.Evals++
 		if err == nil && v == nil {
 			err = fmt.Errorf("not exactly one result")
